@@ -175,6 +175,18 @@ def _progress(ctx: Ctx, c: Collector) -> None:
             t = r.term
             if t[0] == "await" and is_call_to(t[1], "_add_trigger") and not r.guards:
                 a = t[1]
+                one = T.strip(a[2][0]) if len(a[2]) == 1 and not a[3] else None
+                if one is not None and one[0] == "tuple" and len(one[1]) == 3:
+                    # the trigger spec is built here and handed over ready-made: (target, shift or the zero interval, flag)
+                    tgt, sh, fl = one[1]
+                    sp = _shift_problems(sh, T.var(ps[2])) if tgt == T.var(ps[1]) and fl == T.const(flag) and T.contains((sh,), T.var(ps[2])) else None
+                    if sp == []:
+                        ok = True
+                    elif sp:
+                        det = "; ".join(sp)
+                    else:
+                        det = f"hands the trigger spec ({T.show(tgt)}, {T.show(sh)[:40]}, {T.show(fl)}) to _add_trigger; required ({ps[1]}, {ps[2]} or the zero interval, {flag})"
+                    continue
                 tgt, sh, fl = kwarg(a, "target", 0), kwarg(a, "shift", 1), kwarg(a, "needs_to_pass", 2)
                 if tgt == T.var(ps[1]) and sh == T.var(ps[2]) and fl == T.const(flag):
                     ok = True
@@ -244,35 +256,13 @@ def _progress(ctx: Ctx, c: Collector) -> None:
         spec_t = chk.term[2][0] if chk.term[2] else None
         problems = []
         # trigger spec: (target, shift-or-zero, needs_to_pass)
-        if not (spec_t is not None and spec_t[0] == "tuple" and len(spec_t[1]) == 3 and spec_t[1][0] == T.var(ps[1]) and spec_t[1][2] == T.var(ps[3])
+        if len(ps) == 2 and spec_t == T.var(ps[1]):
+            pass        # the spec arrives ready-made: what it consists of is the callers' obligation (O5a)
+        elif len(ps) < 4 or not (spec_t is not None and spec_t[0] == "tuple" and len(spec_t[1]) == 3 and spec_t[1][0] == T.var(ps[1]) and spec_t[1][2] == T.var(ps[3])
                 and T.contains(spec_t[1][1], T.var(ps[2]))):
-            problems.append(f"trigger spec {T.show(spec_t)} is not ({ps[1]}, {ps[2]}, {ps[3]})")
+            problems.append(f"trigger spec {T.show(spec_t)} is not ({', '.join(ps[1:4])})")
         else:
-            # the shift of the spec: the caller's when one is given, the zero interval (no tier of the progress moves) otherwise
-            shv, shp = spec_t[1][1], T.var(ps[2])
-            for given in (True, False):
-                def truthy(t, given=given):
-                    t = T.strip(t)
-                    if t == ("cmp", "is", shp, T.NONE):
-                        return not given
-                    if t == ("cmp", "isnot", shp, T.NONE) or t == shp:
-                        return given
-                    return None
-                try:
-                    v = T.strip(boolfn.resolve_phi(shv, {}, truthy))
-                except boolfn.NotBoolean:
-                    v = None
-                if v is None:
-                    continue
-                if given and v != shp:
-                    problems.append(f"a shift that the caller passes is replaced by {T.show(v)[:60]}: the connection's delay is ignored in the wake-up test")
-                if not given and v != shp:
-                    zero = v[0] == "call" and v[1] == T.glob("mosaik.tiered_time.TieredInterval") and len(v[2]) == 1 and T.strip(v[2][0])[0] == "star" \
-                        and any(x in (("tuple", (T.const(0),)),) or (x[0] == "bag" and len(x[1]) == 1 and x[1][0][1] == T.const(0)) for x in T.subterms((v[2][0],)))
-                    if v[0] == "call" and v[1] == T.glob("mosaik.tiered_time.TieredInterval") and not zero:
-                        problems.append(f"without a shift the progress is compared after adding {T.show(v)[:60]}, which is not the zero interval")
-                if not given and v == shp:
-                    problems.append("a missing shift (None) is not replaced by the zero interval: time + None fails")
+            problems += _shift_problems(spec_t[1][1], T.var(ps[2]))
         sus = g.suspension_between(g.key(chk.stmt), g.key(app.stmt))
         if sus:
             problems.append("suspension point between the immediate check and the registration (lost wake-up): line(s) " + ", ".join(str(g.lineno(k)) for k in sus))
@@ -377,10 +367,13 @@ def _progress(ctx: Ctx, c: Collector) -> None:
                 for x in rest:
                     if not (x[0] == "not" and is_call_to(x[1], "cancelled")):
                         problems.append(f"set_result additionally conditional on {T.show(x)}")
+            if form == "direct" and dels:
+                problems.append("entries are removed from the list while it is being iterated: the element after a removed one is skipped")
             if form == "index-forward" and dels:
                 problems.append("entries are deleted by index while iterating forwards: the element after a removed one is skipped")
             # ... or the list is rebuilt from the entries that did not fire
-            rebuilt = [e for e in s.of_kind("store") if e.term[1] == futs and e.idx > chk.idx]
+            FULL = ("idx", futs, ("slice", T.NONE, T.NONE, T.NONE))
+            rebuilt = [e for e in s.of_kind("store") if e.term[1] in (futs, FULL) and e.idx > chk.idx]
             if rebuilt and not dels:
                 kept = unalias(rebuilt[-1].term[2], s, fi)
                 appends = [e for e in s.of_kind("call") if e.term[1][0] == "attr" and e.term[1][2] == "append" and e.iters == chk.iters]
@@ -402,6 +395,35 @@ def _progress(ctx: Ctx, c: Collector) -> None:
         c.ok("O5d", qn, "set-reevaluates-all", "store precedes a loop over all registered triggers; wake iff triggered and not cancelled; remove iff triggered", fi.loc)
 
 
+def _shift_problems(shv: Term, shp: Term) -> List[str]:
+    """the shift of the trigger spec: the caller's when one is given, the zero interval (no tier of the progress moves) otherwise"""
+    problems: List[str] = []
+    for given in (True, False):
+        def truthy(t, given=given):
+            t = T.strip(t)
+            if t == ("cmp", "is", shp, T.NONE):
+                return not given
+            if t == ("cmp", "isnot", shp, T.NONE) or t == shp:
+                return given
+            return None
+        try:
+            v = T.strip(boolfn.resolve_phi(shv, {}, truthy))
+        except boolfn.NotBoolean:
+            v = None
+        if v is None:
+            continue
+        if given and v != shp:
+            problems.append(f"a shift that the caller passes is replaced by {T.show(v)[:60]}: the connection's delay is ignored in the wake-up test")
+        if not given and v != shp:
+            zero = v[0] == "call" and v[1] == T.glob("mosaik.tiered_time.TieredInterval") and len(v[2]) == 1 and T.strip(v[2][0])[0] == "star" \
+                and any(x in (("tuple", (T.const(0),)),) or (x[0] == "bag" and len(x[1]) == 1 and x[1][0][1] == T.const(0)) for x in T.subterms((v[2][0],)))
+            if v[0] == "call" and v[1] == T.glob("mosaik.tiered_time.TieredInterval") and not zero:
+                problems.append(f"without a shift the progress is compared after adding {T.show(v)[:60]}, which is not the zero interval")
+        if not given and v == shp:
+            problems.append("a missing shift (None) is not replaced by the zero interval: time + None fails")
+    return problems
+
+
 def _is_trig(x: Term) -> bool:
     """The trigger test as a condition: the value of _triggered_time() (None or a time) taken as a truth value or compared with None."""
     return is_call_to(x, "_triggered_time") or (x[0] == "cmp" and x[1] == "isnot" and x[3] == T.NONE and is_call_to(x[2], "_triggered_time"))
@@ -421,6 +443,8 @@ def _whole_list_iteration(src: Term, futs: Term) -> Optional[str]:
     if src[0] == "call" and src[1] == T.glob("range") and len(src[2]) == 3 and src[2][2] == T.const(-1) \
             and src[2][0] == ("op", "-", ln, T.const(1)) and src[2][1] == T.const(-1):
         return "index-reverse"
+    if src in (futs, call(T.glob("reversed"), futs)):
+        return "direct"          # the list itself is walked: sound only if nothing is removed on the way (checked by the caller)
     if src == call(T.glob("list"), futs) or src == ("idx", futs, ("slice", T.NONE, T.NONE, T.NONE)) \
             or src == call(T.glob("tuple"), futs) or src == call(("attr", futs, "copy")):
         return "copy"
@@ -472,6 +496,10 @@ def _futures_writers(ctx: Ctx, c: Collector) -> None:
             n += 1
             via = e.extra.get("via") if isinstance(e.extra, dict) else None
             where = via or fi.qualname
+            if via is not None and fi.qualname in allowed:
+                vfi = ctx.prog.functions.get(via)
+                if vfi is not None and __import__("mverif.flow", fromlist=["x"]).is_new_helper(vfi):
+                    where = fi.qualname        # a helper that a later change split off the allowed function: read in place
             if where not in allowed:
                 bad.append((fi, e, hit, where))
     c.info["futures_writes"] = n
